@@ -51,6 +51,37 @@
 #include "write_lp_EGLPNUM_TYPENAME.h"
 
 
+/* all text goes into a line through put_text: the line is a fixed buffer, and
+ * what does not fit any more (a number of a hundred thousand digits) is left
+ * out and counted instead of being written behind its end */
+static int lost_text = 0;
+
+static void put_text (
+	EGLPNUM_TYPENAME_ILLwrite_lp_state * line,
+	const char *str)
+{
+	size_t len = strlen (str);
+
+	if ((size_t) (line->p - line->buf) + len + 1 > sizeof (line->buf))
+	{
+		lost_text++;
+		return;
+	}
+	memcpy (line->p, str, len + 1);
+	line->p += len;
+	line->total += (int) len;
+}
+
+int EGLPNUM_TYPENAME_ILLwrite_lp_state_lost (
+	int reset)
+{
+	int lost = lost_text;
+
+	if (reset)
+		lost_text = 0;
+	return lost;
+}
+
 void EGLPNUM_TYPENAME_ILLwrite_lp_state_init (
 	EGLPNUM_TYPENAME_ILLwrite_lp_state * line,
 	const char *str)
@@ -68,13 +99,10 @@ void EGLPNUM_TYPENAME_ILLwrite_lp_state_append (
 	EGLPNUM_TYPENAME_ILLwrite_lp_state * line,
 	const char *str)
 {
-	int len, rval = 0;
+	int rval = 0;
 
 	ILL_FAILfalse (str, "Must have non NULL string");
-	sprintf (line->p, "%s", str);
-	len = strlen (line->p);
-	line->total += len;
-	line->p += len;
+	put_text (line, str);
 CLEANUP:
 	return;
 }
@@ -85,31 +113,25 @@ void EGLPNUM_TYPENAME_ILLwrite_lp_state_append_coef (
 	int cnt)
 {
 	EGLPNUM_TYPE ntmp;
-	int len = 0;
 
 	EGLPNUM_TYPENAME_EGlpNumInitVar (ntmp);
 	EGLPNUM_TYPENAME_EGlpNumCopy (ntmp, v);
 	if (EGLPNUM_TYPENAME_EGlpNumIsLessZero (ntmp))
 	{
-		sprintf (line->p, " - ");
-		len = 3;
+		put_text (line, " - ");
 		EGLPNUM_TYPENAME_EGlpNumSign (ntmp);
 	}
 	else
 	{
 		if (cnt > 0)
 		{
-			sprintf (line->p, " + ");
-			len = 3;
+			put_text (line, " + ");
 		}
 		else
 		{
-			sprintf (line->p, " ");
-			len = 1;
+			put_text (line, " ");
 		}
 	}
-	line->p += len;
-	line->total += len;
 	if (EGLPNUM_TYPENAME_EGlpNumIsNeqq (ntmp, EGLPNUM_TYPENAME_oneLpNum))
 	{
 		EGLPNUM_TYPENAME_ILLwrite_lp_state_append_number (line, ntmp);
@@ -149,13 +171,10 @@ static void append_number (
 	EGLPNUM_TYPENAME_ILLwrite_lp_state * line,
 	EGLPNUM_TYPE v)
 {
-	int len = 0;
 	char *numstr = EGLPNUM_TYPENAME_EGlpNumGetStr (v);
 
-	sprintf (line->p, "%s%n", numstr, &len);
+	put_text (line, numstr);
 	EGfree (numstr);
-	line->p += len;
-	line->total += len;
 }
 
 #if 0
